@@ -9,52 +9,6 @@ set_option linter.unusedVariables false
 namespace Jose.Props.C15
 open Jose Jose.Entity Jose.Json
 
-theorem lookup_append_missing (k : String) (acc : List (String × Json)) (kv : String × Json)
-    (h : lookup kv.1 acc = none) : lookup k (acc ++ [kv]) = (lookup k acc).orElse (fun _ => if kv.1 = k then some kv.2 else none) := by
-  induction acc with
-  | nil => simp [lookup]
-  | cons x r ih =>
-    obtain ⟨k', v'⟩ := x
-    simp only [lookup] at h
-    split at h
-    · simp at h
-    · rename_i hk
-      simp only [List.cons_append, lookup]
-      split
-      · simp
-      · exact ih h
-
-/-- `json_object_update_missing`: existing members win, then the first occurrence in the other object -/
-theorem lookup_updateMissingKV (a b : List (String × Json)) (k : String) :
-    lookup k (updateMissingKV a b) = (lookup k a).orElse (fun _ => lookup k b) := by
-  induction b generalizing a with
-  | nil => simp [updateMissingKV]
-  | cons x r ih =>
-    obtain ⟨k', v'⟩ := x
-    simp only [updateMissingKV, List.foldl_cons]
-    have ih1 := ih a
-    simp only [updateMissingKV] at ih1
-    cases hk : lookup k' a with
-    | some v =>
-      simp only [Option.isSome_some, if_true]
-      rw [ih1]
-      cases hka : lookup k a with
-      | some w => simp
-      | none =>
-        have hne : k' ≠ k := by intro h; subst h; simp [hk] at hka
-        simp [lookup, hne]
-    | none =>
-      simp only [Option.isSome_none, Bool.false_eq_true, if_false]
-      have ih2 := ih (a ++ [(k', v')])
-      simp only [updateMissingKV] at ih2
-      rw [ih2, lookup_append_missing k a (k', v') hk]
-      cases hka : lookup k a with
-      | some w => simp
-      | none =>
-        by_cases hne : k' = k
-        · subst hne; simp [lookup]
-        · simp [lookup, hne]
-
 /-- C15 (JWS): a protected parameter hides an unprotected one of the same name -/
 theorem precedence_jws (sig h : Json) (hh : jwsHdr sig = some h) (name : String) :
     ∃ p, protectedObj sig = some p ∧
